@@ -147,6 +147,104 @@ def linregGradient (bs : List (List (Vec × Vec))) (d : Nat) (lam : Rat) (c : Na
 def linregObjectiveAll (bs : List (List (Vec × Vec))) (d k : Nat) (lam : Rat) (B : Nat → Nat → Rat) : Rat :=
   rsum k fun c => linregObjective bs d lam c (fun j => B j c)
 
+
+/-! ## Linear models `y = W x + b` (`Models/LinearModel.h`), whitening, PCA -/
+
+structure LinearModel where
+  rows : Nat
+  W : Nat → Nat → Rat
+  b : Nat → Rat
+
+def LinearModel.eval (m : LinearModel) (d : Nat) (x : Vec) (a : Nat) : Rat :=
+  rsum d (fun j => m.W a j * x.at j) + m.b a
+
+def LinearModel.apply (m : LinearModel) (d : Nat) (x : Vec) : Vec := (List.range m.rows).map (m.eval d x)
+
+def LinearModel.applyData (m : LinearModel) (d : Nat) (bs : List (List Vec)) : List (List Vec) :=
+  bs.map fun b => b.map (m.apply d)
+
+/-- `NormalizeComponentsWhitening::train` / `NormalizeComponentsZCA::train`: both install
+`W = √t · C`, `b = −W·mean`, where `C` (`r × d`) comes from the decomposition of the
+covariance (`compute_inverse_factor` of the pivoted Cholesky solver, resp.
+`Q·diag(1/√D)·Qᵀ` of the eigen-decomposition) — a parameter here, specified by
+`C·Cov·Cᵀ = I_r`. -/
+def whitening (factor : Nat → (Nat → Nat → Rat) → Nat × (Nat → Nat → Rat)) (sqrtT : Rat)
+    (bs : List (List Vec)) (d : Nat) : LinearModel :=
+  let rc := factor d (covariance bs)
+  { rows := rc.1
+    W := fun a j => rc.2 a j * sqrtT
+    b := fun a => -(rsum d fun j => rc.2 a j * sqrtT * mean bs j) }
+
+/-- `PCA::encoder` (no whitening): rows = the first `m` columns of the eigenvector matrix
+`V` (`n × ·`), offset `−A·mean` -/
+def pcaEncoder (V : Nat → Nat → Rat) (mu : Nat → Rat) (n m : Nat) : LinearModel :=
+  { rows := m, W := fun i j => V j i, b := fun i => -(rsum n fun j => V j i * mu j) }
+
+/-- `PCA::decoder` (no whitening): the first `m` columns of `V`, offset `mean` -/
+def pcaDecoder (V : Nat → Nat → Rat) (mu : Nat → Rat) (n : Nat) : LinearModel :=
+  { rows := n, W := fun j i => V j i, b := mu }
+
+/-- encoder / decoder on vectors given as functions -/
+def pcaEnc (V : Nat → Nat → Rat) (mu : Nat → Rat) (n : Nat) (x : Nat → Rat) (i : Nat) : Rat :=
+  rsum n (fun j => V j i * x j) + -(rsum n fun j => V j i * mu j)
+
+def pcaDec (V : Nat → Nat → Rat) (mu : Nat → Rat) (m : Nat) (z : Nat → Rat) (j : Nat) : Rat :=
+  rsum m (fun i => V j i * z i) + mu j
+
+/-- centred design matrix `X0` (`l × n`) of the small-sample branch of `PCA::setData` -/
+def centred (bs : List (List Vec)) (a j : Nat) : Rat := ((bs.flatten)[a]?.getD []).at j - mean bs j
+
+/-- `S = X0·X0ᵀ / l` (assembled block by block over pairs of batches in the C++) -/
+def gramSmall (bs : List (List Vec)) (n : Nat) (a b : Nat) : Rat :=
+  rsum n (fun j => centred bs a j * centred bs b j) / (count bs : Nat)
+
+/-- un-normalised direction `X0ᵀ u` of the small-sample branch -/
+def liftDirection (bs : List (List Vec)) (u : Nat → Rat) (j : Nat) : Rat :=
+  rsum (count bs) fun a => centred bs a j * u a
+
+/-! ## LDA (`src/Algorithms/LDA.cpp`) -/
+
+abbrev CData := List (List (Vec × Nat))            -- (input, class)
+abbrev WCData := List (List (Vec × Nat × Rat))     -- (input, class, weight)
+
+def classCount (bs : CData) (c : Nat) : Rat := bsum bs fun p => if p.2 = c then 1 else 0
+
+def ldaMean (bs : CData) (c j : Nat) : Rat :=
+  bsum bs (fun p => if p.2 = c then p.1.at j else 0) / classCount bs c
+
+/-- unweighted `LDA::train`: `(Σ x xᵀ)/(n−C) − Σ_c n_c/(n−C) m_c m_cᵀ`, `+ reg` on the diagonal if `reg > 0` -/
+def ldaCov (bs : CData) (classes : Nat) (reg : Rat) (i j : Nat) : Rat :=
+  let nc : Rat := ((count bs : Nat) : Rat) - (classes : Nat)
+  bsum bs (fun p => p.1.at i * p.1.at j) / nc
+    - rsum classes (fun c => classCount bs c / nc * (ldaMean bs c i * ldaMean bs c j))
+    + (if i = j ∧ 0 < reg then reg else 0)
+
+def ldaPrior (bs : CData) (c : Nat) : Rat := classCount bs c / (count bs : Nat)
+
+def sumOfWeights (bs : WCData) : Rat := bsum bs fun p => p.2.2
+def classWeight (bs : WCData) (c : Nat) : Rat := bsum bs fun p => if p.2.1 = c then p.2.2 else 0
+
+def wldaMean (bs : WCData) (c j : Nat) : Rat :=
+  bsum bs (fun p => if p.2.1 = c then p.2.2 * p.1.at j else 0) / classWeight bs c
+
+/-- weighted `LDA::train`.  The C++ scales every row by `sqrt(w)` before forming `XᵀX`; in
+exact arithmetic (`sqrt(w)² = w`) that is `Σ w x xᵀ`.  Normalisation is by the weight sum
+(not by `n − C` as in the unweighted trainer). -/
+def wldaCov (bs : WCData) (classes : Nat) (reg : Rat) (i j : Nat) : Rat :=
+  bsum bs (fun p => p.2.2 * (p.1.at i * p.1.at j)) / sumOfWeights bs
+    - rsum classes (fun c => classWeight bs c / sumOfWeights bs * (wldaMean bs c i * wldaMean bs c j))
+    + (if i = j then reg else 0)
+
+def wldaPrior (bs : WCData) (c : Nat) : Rat := classWeight bs c / sumOfWeights bs
+
+/-- multiply every example weight by `s` -/
+def scaleWeights (s : Rat) (bs : WCData) : WCData := bs.map fun b => b.map fun p => (p.1, p.2.1, s * p.2.2)
+
+/-- the linear discriminant `δ_c(x) = x·z_c + b_c`, `b_c = −½ m_c·z_c + log π_c`
+(`z_c` = row `c` of `solve(cov, means, right)`, `logPrior` = `std::log` of the prior) -/
+def ldaDiscriminant (d : Nat) (z m : Nat → Nat → Rat) (logPrior : Nat → Rat) (c : Nat) (x : Nat → Rat) : Rat :=
+  rsum d (fun j => x j * z c j) + (-(1 / 2) * rsum d (fun j => m c j * z c j) + logPrior c)
+
 /-! ### an executable solver (Gauss–Jordan over `Rat`), used by the driver.
 Nothing is proved about it; the driver checks `A·x = b` on every result. -/
 
